@@ -808,8 +808,8 @@ func interleave(texts []string, sched []int, solo [][]int) (term string, ntoks i
 		}
 		streams[i] = append(streams[i], ty)
 		ntoks++
-		if (ty == parser.SyslLexerINDENT || ty == parser.SyslLexerDEDENT) && t.GetStart() == 0 && t.GetStop() == 0 && t.GetText() == "" {
-			return // synthetic: not a raw token
+		if ty == parser.SyslLexerINDENT || ty == parser.SyslLexerDEDENT {
+			return // synthetic (no lexer rule produces these types): not a raw token
 		}
 		w := 0
 		if ty == parser.SyslLexerWS || ty == parser.SyslLexerE_WS {
@@ -928,6 +928,13 @@ func main() {
 		return
 	}
 
+	phaseT := time.Now()
+	phases := map[string]float64{}
+	c.Res.Extra["phase_seconds"] = phases
+	phase := func(name string) {
+		phases[name] = float64(time.Since(phaseT).Milliseconds()) / 1000
+		phaseT = time.Now()
+	}
 	thorough := c.Thorough()
 	scale := 1
 	if c.Search {
@@ -1033,6 +1040,7 @@ func main() {
 		pc.Add(fmt.Sprintf("([%s], [%s])", strings.Join(as, ";"), strings.Join(os, ";")), rp)
 	}
 	pc.Close()
+	phase("post")
 
 	// ---- keyed correspondence: interleaved real lexers sharing the global map (main process)
 	kc := c.NewCases("keyed", "From Coq Require Import List NArith Bool.\nImport ListNotations.\nRequire Import Verif.Conc.Keyed Verif.Conc.Run Verif.Base.Harness.\nLocal Open Scope N_scope.\nNotation T := true.\nNotation F := false.",
@@ -1088,6 +1096,7 @@ func main() {
 		kc.Add(term, map[string]interface{}{"kind": "keyed", "lexers": n, "tokens": ntoks, "sched_len": len(sched)})
 	}
 	kc.Close()
+	phase("keyed")
 
 	// ---- sequential baseline
 	passes := 2
@@ -1098,6 +1107,7 @@ func main() {
 	if !ok {
 		return
 	}
+	phase("sequential")
 
 	// ---- concurrent batches
 	rounds := 3
@@ -1164,6 +1174,7 @@ func main() {
 		}
 	}
 
+	phase("batches")
 	// ---- the lexer-state map alone
 	nChurn := 60000
 	if thorough {
@@ -1178,6 +1189,7 @@ func main() {
 		}
 	}
 
+	phase("churn")
 	// ---- the language server's syntax check
 	{
 		var valid []spec
@@ -1195,6 +1207,7 @@ func main() {
 			r.lsp(valid, 8, 8, n*scale, c.Rng.Uint64())
 		}
 	}
+	phase("lsp")
 	c.Res.Extra["worker_restarts"] = r.w.Restarts
 }
 
